@@ -326,7 +326,7 @@ def _to_float(x, kind):
 
 def build_fgg(ag, kind='real', dtype=None, *, rule_order=None, implicit_ids=False, value_perm=None,
               finite_domains=False, patterned=None, with_interp=True, use_rule_ids=False, fresh_labels=False,
-              start_last=False, defer_rules=0):
+              start_last=False, defer_rules=0, offset_views=False):
     """Return (fgg, info) for the abstract grammar.  kind selects which weight table is used and
     how it is mapped to floats: real (w), log (ln w), mp (wmp, for the Viterbi semiring), bool.
     info['nodes'][ri] / info['edges'][ri] list the real Node/Edge objects of rule ri (AG order)."""
@@ -426,6 +426,11 @@ def build_fgg(ag, kind='real', dtype=None, *, rule_order=None, implicit_ids=Fals
             else:
                 ten = torch.tensor(vals, dtype=dtype).reshape(shape)
             doms = [g.domains[x] for x in ag['els'][t]['type']]
+            if offset_views:
+                # the weights are a VIEW into a larger parameter table at a non-zero storage offset (what table[1] gives)
+                junk = torch.full_like(ten.reshape(-1), True if kind == 'bool' else 9)
+                big = torch.cat([junk, junk[:1], ten.reshape(-1)])
+                ten = big[junk.numel() + 1:].reshape(shape)
             if patterned and t in patterned:
                 ten = patterned[t](ten)
             g.add_factor(el[t], FiniteFactor(doms, ten))
